@@ -123,7 +123,7 @@ def gen_cases(ctx, consts):
     C.append(("xs", dict(t=t, args=[math.exp(math.nextafter(1.0, 0.0)), ulps(math.e, -1), ulps(math.e, -2)])))
     C.append(("range", dict(t=t, args=[math.exp(math.nextafter(1.0, 0.0)), ulps(math.e, -1), ulps(math.e, -2)])))
     C.append(("eloss", dict(d=Table([1.0, 1.0], 0.0, 1.0, -1), rt=Table([2.0, 4.0], 0.0, 1.0, -1),
-                            lll=0.01, e=1.0, range=2.0, args=[0.00999, 0.01, 2.0])))
+                            lll=0.01, e=1.0, range=2.0, args=[0.00999, 0.01, 2.0], mono=True)))
     modes = ["none", "zero", "one", "last", "prelast", "any"]
     nxs = 36 if not thorough else 400
     for i in range(nxs):
@@ -171,6 +171,35 @@ def gen_cases(ctx, consts):
         steps += [sw * f for f in (0.5, 0.9, 0.999, 1.001, 1.1, 2.0)]
         steps = sorted(s for s in set(steps) if 0 < s <= rng)
         C.append(("eloss", dict(d=d, rt=rt, lll=lll, e=e, range=rng, args=steps, consistent=consistent)))
+    # smooth tables whose range table is the EXACT integral of 1/dEdx of the interpolated dE/dx:
+    # here the monotonicity oracle runs (known finding F7 at the switch, anything else is a violation)
+    for i in range(16 if not thorough else 200):
+        n = r.choice([64, 100, 200])
+        front = math.log(10 ** r.uniform(-3, 1)); back = front + r.uniform(0.5, 3.0)
+        delta = (back - front) / (n - 1)
+        kap = r.uniform(-2, 2); v = 10 ** r.uniform(-2, 2); raw = []
+        for j in range(n):
+            raw.append(v)
+            kap = min(2.0, max(-2.0, kap + r.uniform(-0.3, 0.3)))
+            v *= math.exp(kap * delta)
+        d = Table(raw, front, back, -1)
+        rr = [2 * d.knots[0] / raw[0]]
+        for j in range(1, n):
+            e0, e1, y0, y1 = d.knots[j - 1], d.knots[j], raw[j - 1], raw[j]
+            a_ = (y1 - y0) / (e1 - e0)
+            seg = (e1 - e0) / y0 if abs(y1 - y0) < 1e-9 * y0 else math.log(y1 / y0) / a_
+            rr.append(rr[-1] + seg)
+        rt = Table(rr, front, back, -1)
+        lll = r.choice([0.01, 0.01, 0.03, 0.1])
+        e = math.exp(r.uniform(front + 0.4 * (back - front), back))
+        rng = py_range(rt, e)
+        j = min(n - 2, max(0, bisect.bisect_right(d.knots, e) - 1))
+        f = (e - d.knots[j]) / (d.knots[j + 1] - d.knots[j])
+        sw = lll * e / (raw[j] + f * (raw[j + 1] - raw[j]))
+        steps = [sw * (1 + q * 1e-3) for q in range(-5, 6)] + [sw * 0.1, sw * 0.5, sw * 0.9, sw * 1.1, sw * 2, sw * 5,
+                                                              rng * 0.5, ulps(rng, -1), rng]
+        steps = sorted(s_ for s_ in set(steps) if 0 < s_ <= rng)
+        C.append(("eloss", dict(d=d, rt=rt, lll=lll, e=e, range=rng, args=steps, mono=True)))
     for i in range(40 if not thorough else 400):
         m = gen_table(r, "xs", n=r.choice([2, 3, 5, 17]))
         rt = gen_table(r, "range", n=r.choice([2, 3, 5, 17]))
@@ -326,6 +355,32 @@ def oracle(k, p, out, consts):
     return None, None
 
 
+F7_SIGNATURE = "mean-loss-jump-at-linear-range-switch"
+
+
+def loss_monotonicity(p, out, dedx):
+    """'does not decrease with step length' on the implementation's outputs.
+    Returns a list of (message, signature, replay) for every decrease between
+    consecutive steps.  A decrease is the known finding F7 only if the two steps
+    straddle the switch step*dEdx = lll*E and the drop is <= 4*lll relative."""
+    e, lll, a = p["e"], p["lll"], p["args"]
+    res = []
+    for (s1, v1), (s2, v2) in zip(zip(a, out), zip(a[1:], out[1:])):
+        if v2 >= v1 - 1e-12 * e:
+            continue
+        lin1 = not (s1 * dedx >= e * lll)     # the function's own test, same double operations
+        lin2 = not (s2 * dedx >= e * lll)
+        drop = (v1 - v2) / v1
+        straddle = lin1 and not lin2
+        sig = F7_SIGNATURE if (straddle and drop <= 4 * lll) else None
+        msg = ("mean energy loss decreases with the step across the linear/range switch (relative drop %.3g, limit %.3g)" % (drop, lll)
+               if straddle else "mean energy loss decreases with the step within one branch (relative drop %.3g)" % drop)
+        res.append((msg, sig, {"energy": hx(e), "linear_loss_limit": hx(lll), "range": hx(p["range"]), "dedx": hx(dedx),
+                               "step1": hx(s1), "loss1": hx(v1), "step2": hx(s2), "loss2": hx(v2),
+                               "step1_linear_branch": lin1, "step2_linear_branch": lin2}))
+    return res
+
+
 def agree(k, p, out, mv):
     a = p["args"]
     if len(out) != len(mv):
@@ -433,6 +488,16 @@ def run(ctx):
         if ctx.evaluations % 997 < len(p["args"]):
             ctx.sample({"kind": k, "command": case_line(k, p)[:160], "impl": ol[:120], "model": repr(mv)[:120]})
         msg, at = oracle(k, p, vals, consts)
+        if k == "eloss" and p.get("mono") and not msg:
+            dedx = pf(ol.split("|")[1].split()[0])
+            ctx.count("monotonicity-oracle-cases")
+            for m_msg, m_sig, m_rep in loss_monotonicity(p, vals, dedx):
+                m_rep["command"] = case_line(k, p)[:3000]
+                ctx.count("loss-decrease:" + ("known-F7" if m_sig else "other"))
+                if m_sig or nviol.get("eloss-mono", 0) < 2:
+                    if not m_sig:
+                        nviol["eloss-mono"] = nviol.get("eloss-mono", 0) + 1
+                    ctx.violation("oracle", m_msg, m_rep, signature=m_sig)
         if msg:
             nviol[k] = nviol.get(k, 0) + 1
             ctx.violation("oracle", "%s (%s)" % (msg, k), {"command": case_line(k, p)[:3000], "at": hx(at) if isinstance(at, float) else at,
@@ -445,12 +510,15 @@ def run(ctx):
     # replay of the refutation witness (Properties_C14.v: C14_mean_loss_monotone_refuted) on the real function
     for (k, p), ol in zip(cases, olines):
         if k == "eloss" and p["args"] == [0.00999, 0.01, 2.0]:
-            v = [pf(t) for t in ol.split()]
+            v = [pf(t) for t in ol.split("|")[0].split()]
             ctx.notes.append("F7 witness on calc_mean_energy_loss: loss(0.00999)=%r loss(0.01)=%r -> %s" % (
                 v[0], v[1], "reproduces (loss decreases across the linear/range switch)" if v[1] < v[0] else "does NOT reproduce"))
             if not v[1] < v[0]:
                 ctx.violation("correspondence", "the refutation witness of C14_mean_loss_monotone_refuted does not reproduce on the implementation",
                               {"impl": v}, no_input=True)
+            elif not any(h["signature"] == F7_SIGNATURE for h in ctx.known_hits):
+                ctx.violation("oracle", "the witness of C14_mean_loss_monotone_refuted reproduces but was not classified as the known finding",
+                              {"impl": v}, signature=None)
     if not proofs_ok and not ctx.violations:
         ctx.violation("proof-broken", "Properties_C14.v no longer checks", ctx.broken_proof, no_input=True)
     ctx.coverage["rule"] = ("cases = (calculator, generated table, argument); tables 2..200 knots, prime_index none/0/1/n-2/n-1/every position "
